@@ -195,47 +195,84 @@ theorem sympy_total (fv : FloatOf) (n : Nat) (gs : List AGate) (hwf : circWF fv 
     (fun g hg m => sympyStep_total fv n g (hwf g hg) (he g hg) m)
   exact ⟨fs, h, sympy_translation fv n gs fs hwf h⟩
 
-/-- QASM, both versions and modes: the repaired exporter returns on every well-formed circuit
-over `qasmExportable` gates, whatever the names -/
-theorem qasm_total (fv : FloatOf) (ver : Nat) (gm : Bool) (c : Circ)
+/-- QASM, both versions and modes: the exporter with repaired formals (`QasmRepaired q`: the
+fully repaired model and the code as it is, which still prints `{p:.2f}`) returns on every
+well-formed circuit over `qasmExportable` gates, whatever the names -/
+theorem qasm_total (q : Quirks) (hq : QasmRepaired q) (fv : FloatOf) (ver : Nat) (gm : Bool) (c : Circ)
     (hwf : circWF fv c.numQubits c.gates) (he : ∀ g ∈ c.gates, qasmExportable g.cls = true) :
-    ∃ text, exportQasm Quirks.none fv ver gm c = .ok text := by
+    ∃ text, exportQasm q fv ver gm c = .ok text := by
   unfold exportQasm
-  rw [qasmBody_eq fv c hwf he]
+  rw [qasmBody_eq hq fv c hwf he]
   cases gm <;> simp
 
 /-! ## (b) the read-back lines resolve to the circuit's operations -/
 
 /-- every gate name the exporter prints is read back as the class's base gate and number of
-controls (`c…c<base>`; all 17 class shapes, any `n`, any library inner gate) -/
+controls (`c…c<base>`; every class shape, any `n`, any library inner gate) -/
 theorem qasm_name_reading (cls : GClass) (bk : Base × Nat) (h : kind cls = some bk) :
     kindOfQasm (qasmName cls) = some bk := kindOfQasm_qasmName h
 
-/-- repaired exporter, readable text, distinct formals, (controlled) library gates: the
-declaration that is read back applies exactly the circuit's non-nop gates, in order, each on
-the formal positions = qubit indices of its wires, with the literal of its parameter -/
+/-- exporter with repaired formals (the fully repaired model *and* the code as it is), readable
+text, distinct formals, (controlled) library gates: the declaration that is read back applies
+exactly the circuit's non-nop gates, in order, each on the formal positions = qubit indices of
+its wires; the parameter text is what `q` prints (`gateTOpQ`: the literal, or `{p:.2f}` of its
+value under `qasmParam2f`) -/
+theorem qasm_resolves_q (q : Quirks) (hq : QasmRepaired q) (fv : FloatOf) (ver : Nat) (c : Circ)
+    (hwf : circWF fv c.numQubits c.gates) (he : ∀ g ∈ c.gates, qasmExportable g.cls = true)
+    (hr : qasmReadable q fv c = true) (hnd : (qasmFormals q c).Nodup) :
+    ∃ text d, exportQasm q fv ver true c = .ok text ∧ parseDecl text = some d ∧
+      d.name = c.name ∧ d.formals = (List.range c.numQubits).map (nameOfIndex c.qmap) ∧
+      declOps d = some (c.gates.filterMap (gateTOpQ q fv)) := by
+  obtain ⟨text, body, h1, h2, h3⟩ := qasm_roundtrip q fv ver c hr
+  refine ⟨text, _, h1, h3, rfl, qasmFormals_repaired hq c, ?_⟩
+  rw [qasm_body_lines q fv c body h2]
+  exact declOps_body hq fv c hwf he hnd
+
+/-- fully repaired exporter: the parameter read back is the literal of the gate's parameter -/
 theorem qasm_resolves (fv : FloatOf) (ver : Nat) (c : Circ) (hwf : circWF fv c.numQubits c.gates)
     (he : ∀ g ∈ c.gates, qasmExportable g.cls = true)
     (hr : qasmReadable Quirks.none fv c = true) (hnd : (qasmFormals Quirks.none c).Nodup) :
     ∃ text d, exportQasm Quirks.none fv ver true c = .ok text ∧ parseDecl text = some d ∧
       d.name = c.name ∧ d.formals = qasmFormals Quirks.none c ∧
       declOps d = some (c.gates.filterMap gateTOp) := by
-  obtain ⟨text, body, h1, h2, h3⟩ := qasm_roundtrip Quirks.none fv ver c hr
-  refine ⟨text, _, h1, h3, rfl, rfl, ?_⟩
-  rw [qasm_body_lines Quirks.none fv c body h2]
-  exact declOps_body fv c hwf he hnd
+  obtain ⟨text, d, h1, h2, h3, h4, h5⟩ :=
+    qasm_resolves_q Quirks.none qasmRepaired_none fv ver c hwf he hr hnd
+  refine ⟨text, d, h1, h2, h3, h4.trans (qasmFormals_repaired qasmRepaired_none c).symm, ?_⟩
+  rw [h5]
+  congr 1
+  exact filterMap_congr_mem _ (fun g _ => gateTOpQ_none fv g)
 
 /-! ## (c) readability from conditions on the names -/
 
 /-- `wellNamed` (circuit name and qubit names identifier-shaped, names distinct, no qubit name
 equal to the fallback name `q<i>` of an unnamed qubit) and single-token parameter literals give
 the two conditions on the output used above: every emitted token is readable and the formals are
-pairwise distinct.  Aliased and dotted names of compiled functions are allowed. -/
-theorem qasm_wellNamed_readable (fv : FloatOf) (c : Circ) (hwf : circWF fv c.numQubits c.gates)
+pairwise distinct.  Aliased and dotted names of compiled functions are allowed.  Holds for the
+fully repaired model and for the code as it is (`{p:.2f}` prints sign, digits and a point). -/
+theorem qasm_wellNamed_readable (q : Quirks) (hq : QasmRepaired q) (fv : FloatOf) (c : Circ)
+    (hwf : circWF fv c.numQubits c.gates)
     (he : ∀ g ∈ c.gates, qasmExportable g.cls = true)
     (hp : paramsPlain c.gates = true) (hn : wellNamed c = true) :
-    qasmReadable Quirks.none fv c = true ∧ (qasmFormals Quirks.none c).Nodup :=
-  readable_of_wellNamed fv c hwf he hp hn
+    qasmReadable q fv c = true ∧ (qasmFormals q c).Nodup :=
+  readable_of_wellNamed hq fv c hwf he hp hn
+
+/-- the code as it is (only `C13-qasm-param-2f` unrepaired), from conditions on the input alone:
+both versions of the gate declaration are emitted and read back as the circuit's name, one
+formal per qubit in index order, pairwise distinct, and exactly the circuit's non-nop gates on
+the positions of their qubits – only the parameter is the two-decimal rendering of its value -/
+theorem qasm_asis_resolves (fv : FloatOf) (ver : Nat) (c : Circ) (hwf : circWF fv c.numQubits c.gates)
+    (he : ∀ g ∈ c.gates, qasmExportable g.cls = true)
+    (hp : paramsPlain c.gates = true) (hn : wellNamed c = true) :
+    ∃ text d, exportQasm { qasmParam2f := true } fv ver true c = .ok text ∧ parseDecl text = some d ∧
+      d.name = c.name ∧ d.formals = (List.range c.numQubits).map (nameOfIndex c.qmap) ∧
+      d.formals.Nodup ∧
+      declOps d = some (c.gates.filterMap (gateTOpQ { qasmParam2f := true } fv)) := by
+  have hq : QasmRepaired { qasmParam2f := true } := ⟨rfl, rfl⟩
+  obtain ⟨hr, hnd⟩ := qasm_wellNamed_readable _ hq fv c hwf he hp hn
+  obtain ⟨text, d, h1, h2, h3, h4, h5⟩ := qasm_resolves_q _ hq fv ver c hwf he hr hnd
+  refine ⟨text, d, h1, h2, h3, h4, ?_, h5⟩
+  rw [h4, ← qasmFormals_repaired hq c]
+  exact hnd
 
 /-- the hypotheses are satisfiable by the name map of a compiled `c = a` (aliased: `a` and `c`
 both name qubit 0), dotted names, an unnamed qubit, MCX, a parameter and a barrier -/
@@ -255,7 +292,7 @@ theorem C13_full : C13_statement := by
   refine ⟨fun gm he => qiskit_total fv gm _ _ hwf he, fun he => cirq_total fv _ _ hwf he,
     fun he => sympy_total fv _ _ hwf he, (qasm_formals_full c).1, ?_⟩
   intro hn hp he ver
-  obtain ⟨hr, hnd⟩ := qasm_wellNamed_readable fv c hwf he hp hn
+  obtain ⟨hr, hnd⟩ := qasm_wellNamed_readable _ qasmRepaired_none fv c hwf he hp hn
   obtain ⟨text, d, h1, h2, h3, h4, h5⟩ := qasm_resolves fv ver c hwf he hr hnd
   exact ⟨text, d, _, h1, (qasm_text_shape Quirks.none fv ver c text h1).1, h2, h3, h4, h4 ▸ hnd, h5, rfl⟩
 
